@@ -332,6 +332,14 @@ func NewBytecodeCompiler(name string, mode bytecodeCompilerMode, loc *position.L
 	return c
 }
 
+// Create a compiler for a nested unit of code (method, closure, namespace body etc.).
+// It shares the global data and inherits the compiler flags of the current compiler.
+func (c *BytecodeCompiler) newChildCompiler(name string, mode bytecodeCompilerMode, loc *position.Location) *BytecodeCompiler {
+	child := NewBytecodeCompiler(name, mode, loc, c.checker, c.globalData)
+	child.additionalAbortChecks = c.additionalAbortChecks
+	return child
+}
+
 func (c *BytecodeCompiler) createBreakpointContext(typecheckerContext value.Reference, loc *position.Location) *BytecodeBreakpointContext {
 	return &BytecodeBreakpointContext{
 		lastLocalIndex:     c.lastLocalIndex,
@@ -506,7 +514,7 @@ func (c *BytecodeCompiler) CompileInclude(target types.Namespace, mixin *types.M
 }
 
 func (c *BytecodeCompiler) InitExpressionCompiler(location *position.Location) Compiler {
-	exprCompiler := NewBytecodeCompiler("<file>", topLevelBytecodeCompilerMode, location, c.checker, c.globalData)
+	exprCompiler := c.newChildCompiler("<file>", topLevelBytecodeCompilerMode, location)
 	exprCompiler.Errors = c.Errors
 
 	c.emitValue(value.Ref(exprCompiler.bytecode), location)
@@ -625,7 +633,7 @@ func (c *BytecodeCompiler) compileFunction(location *position.Location, paramete
 }
 
 func (c *BytecodeCompiler) InitMethodCompiler(location *position.Location) (Compiler, int) {
-	methodCompiler := NewBytecodeCompiler("<methodDefinitions>", topLevelBytecodeCompilerMode, c.bytecode.Location, c.checker, c.globalData)
+	methodCompiler := c.newChildCompiler("<methodDefinitions>", topLevelBytecodeCompilerMode, c.bytecode.Location)
 	methodCompiler.Errors = c.Errors
 	methodCompiler.parent = c
 
@@ -640,7 +648,7 @@ func (c *BytecodeCompiler) InitMethodCompiler(location *position.Location) (Comp
 var ivarIndicesSymbol = value.ToSymbol("<ivarIndices>")
 
 func (c *BytecodeCompiler) InitIvarIndicesCompiler(location *position.Location) (Compiler, int) {
-	ivarCompiler := NewBytecodeCompiler(ivarIndicesSymbol.String(), topLevelBytecodeCompilerMode, c.bytecode.Location, c.checker, c.globalData)
+	ivarCompiler := c.newChildCompiler(ivarIndicesSymbol.String(), topLevelBytecodeCompilerMode, c.bytecode.Location)
 	ivarCompiler.Errors = c.Errors
 	ivarCompiler.parent = c
 
@@ -952,7 +960,7 @@ func (c *BytecodeCompiler) CompileMethodBody(node *ast.MethodDefinitionNode, nam
 		mode = methodBytecodeCompilerMode
 	}
 
-	methodCompiler := NewBytecodeCompiler(name.String(), mode, node.Location(), c.checker, c.globalData)
+	methodCompiler := c.newChildCompiler(name.String(), mode, node.Location())
 	methodCompiler.isGenerator = node.IsGenerator()
 	methodCompiler.isAsync = node.IsAsync()
 	methodCompiler.Errors = c.Errors
@@ -964,7 +972,7 @@ func (c *BytecodeCompiler) CompileMethodBody(node *ast.MethodDefinitionNode, nam
 }
 
 func (c *BytecodeCompiler) CompileMacroBody(node *ast.MacroDefinitionNode, name value.Symbol) *vm.BytecodeFunction {
-	methodCompiler := NewBytecodeCompiler(name.String(), macroBytecodeCompilerMode, node.Location(), c.checker, c.globalData)
+	methodCompiler := c.newChildCompiler(name.String(), macroBytecodeCompilerMode, node.Location())
 	methodCompiler.Errors = c.Errors
 	methodType := c.typeOf(node).(*types.Method)
 	methodCompiler.hasDefer = methodType.HasDefer()
@@ -1738,7 +1746,7 @@ func (c *BytecodeCompiler) compileDeferExpressionNode(node *ast.DeferExpressionN
 	loc := node.Location()
 	c.compileLocalVariableAccess(deferStackVarName, loc)
 
-	closureCompiler := NewBytecodeCompiler("<defer>", methodBytecodeCompilerMode, loc, c.checker, c.globalData)
+	closureCompiler := c.newChildCompiler("<defer>", methodBytecodeCompilerMode, loc)
 	closureCompiler.parent = c
 	closureCompiler.Errors = c.Errors
 	closureCompiler.hasDefer = node.HasDefer
@@ -5018,7 +5026,7 @@ func (c *BytecodeCompiler) singletonBlockIsCompilable(node *ast.SingletonBlockEx
 	singletonType := c.typeOf(node).(*types.SingletonClass)
 	singletonName := singletonType.Name()
 
-	singletonCompiler := NewBytecodeCompiler(fmt.Sprintf("<singleton_class: %s>", singletonName), namespaceBytecodeCompilerMode, location, c.checker, c.globalData)
+	singletonCompiler := c.newChildCompiler(fmt.Sprintf("<singleton_class: %s>", singletonName), namespaceBytecodeCompilerMode, location)
 	singletonCompiler.Errors = c.Errors
 	singletonCompiler.hasDefer = node.HasDefer
 	if !singletonCompiler.compileNamespace(node) {
@@ -5044,7 +5052,7 @@ func (c *BytecodeCompiler) compileSingletonBlockExpressionNode(node *ast.Singlet
 }
 
 func (c *BytecodeCompiler) compileGoExpressionNode(node *ast.GoExpressionNode) {
-	closureCompiler := NewBytecodeCompiler("<closure>", methodBytecodeCompilerMode, node.Location(), c.checker, c.globalData)
+	closureCompiler := c.newChildCompiler("<closure>", methodBytecodeCompilerMode, node.Location())
 	closureCompiler.parent = c
 	closureCompiler.Errors = c.Errors
 	closureCompiler.hasDefer = node.HasDefer
@@ -5083,7 +5091,7 @@ func (c *BytecodeCompiler) compileGoExpressionNode(node *ast.GoExpressionNode) {
 }
 
 func (c *BytecodeCompiler) compileClosureLiteralNode(node *ast.ClosureLiteralNode) {
-	closureCompiler := NewBytecodeCompiler("<closure>", methodBytecodeCompilerMode, node.Location(), c.checker, c.globalData)
+	closureCompiler := c.newChildCompiler("<closure>", methodBytecodeCompilerMode, node.Location())
 	closureCompiler.parent = c
 	closureCompiler.Errors = c.Errors
 	closureType := c.typeOf(node).(*types.Callable)
@@ -5133,7 +5141,7 @@ func (c *BytecodeCompiler) mixinIsCompilable(node *ast.MixinDeclarationNode) boo
 
 	mixinType := c.typeOf(node).(*types.Mixin)
 
-	mixinCompiler := NewBytecodeCompiler(fmt.Sprintf("<mixin: %s>", mixinType.Name()), namespaceBytecodeCompilerMode, node.Location(), c.checker, c.globalData)
+	mixinCompiler := c.newChildCompiler(fmt.Sprintf("<mixin: %s>", mixinType.Name()), namespaceBytecodeCompilerMode, node.Location())
 	mixinCompiler.Errors = c.Errors
 	mixinCompiler.hasDefer = node.HasDefer
 	if !mixinCompiler.compileNamespace(node) {
@@ -5165,7 +5173,7 @@ func (c *BytecodeCompiler) moduleIsCompilable(node *ast.ModuleDeclarationNode) b
 	}
 
 	modType := c.typeOf(node).(*types.Module)
-	modCompiler := NewBytecodeCompiler(fmt.Sprintf("<module: %s>", modType.Name()), namespaceBytecodeCompilerMode, node.Location(), c.checker, c.globalData)
+	modCompiler := c.newChildCompiler(fmt.Sprintf("<module: %s>", modType.Name()), namespaceBytecodeCompilerMode, node.Location())
 	modCompiler.Errors = c.Errors
 	modCompiler.hasDefer = node.HasDefer
 	if !modCompiler.compileNamespace(node) {
@@ -5197,7 +5205,7 @@ func (c *BytecodeCompiler) interfaceIsCompilable(node *ast.InterfaceDeclarationN
 
 	ifaceType := c.typeOf(node).(*types.Interface)
 
-	ifaceCompiler := NewBytecodeCompiler(fmt.Sprintf("<interface: %s>", ifaceType.Name()), namespaceBytecodeCompilerMode, node.Location(), c.checker, c.globalData)
+	ifaceCompiler := c.newChildCompiler(fmt.Sprintf("<interface: %s>", ifaceType.Name()), namespaceBytecodeCompilerMode, node.Location())
 	ifaceCompiler.Errors = c.Errors
 	ifaceCompiler.hasDefer = node.HasDefer
 	if !ifaceCompiler.compileNamespace(node) {
@@ -5229,7 +5237,7 @@ func (c *BytecodeCompiler) classIsCompilable(node *ast.ClassDeclarationNode) boo
 
 	classType := c.typeOf(node).(*types.Class)
 
-	classCompiler := NewBytecodeCompiler(fmt.Sprintf("<class: %s>", classType.Name()), namespaceBytecodeCompilerMode, node.Location(), c.checker, c.globalData)
+	classCompiler := c.newChildCompiler(fmt.Sprintf("<class: %s>", classType.Name()), namespaceBytecodeCompilerMode, node.Location())
 	classCompiler.Errors = c.Errors
 	classCompiler.hasDefer = node.HasDefer
 	if !classCompiler.compileNamespace(node) {
